@@ -147,11 +147,35 @@ pub fn check_bytes(bytes: &[u8], st: &mut Stats, classify: bool) -> Result<(), S
 
 /// Multi-byte UTF-8 sequences that a text-oriented decoder might mistake for digits, hex letters, colons or
 /// line ends: Unicode decimal digits of several scripts, fullwidth forms, and Unicode spaces/line separators.
-const LOOKALIKES: &[&str] = &[
+const LOOKALIKES_FIXED: &[&str] = &[
     "\u{0660}", "\u{0661}", "\u{0669}", "\u{06F0}", "\u{06F5}", "\u{07C0}", "\u{0966}", "\u{096F}", "\u{09E6}", "\u{0E50}", "\u{1810}",
     "\u{FF10}", "\u{FF11}", "\u{FF19}", "\u{FF21}", "\u{FF26}", "\u{FF41}", "\u{FF46}", "\u{1D7CE}", "\u{1D7D8}", "\u{1D7FF}",
     "\u{FF1A}", "\u{FE55}", "\u{A789}", "\u{00A0}", "\u{2028}", "\u{2029}", "\u{0085}", "\u{00B2}", "\u{2160}", "\u{0410}", "\u{0391}",
 ];
+
+/// The fixed list plus every non-ASCII character that a standard text routine maps into the frame alphabet:
+/// characters whose Unicode upper- or lower-case mapping consists only of hex digits, colons or line ends (e.g. the
+/// ligature U+FB00, whose upper case is the two letters "FF"), and every non-ASCII Unicode white-space character
+/// (what `str::trim` removes).
+pub fn lookalikes() -> &'static [String] {
+    static L: std::sync::OnceLock<Vec<String>> = std::sync::OnceLock::new();
+    L.get_or_init(|| {
+        let in_alphabet = |s: &str| !s.is_empty() && s.bytes().all(|b| b.is_ascii_hexdigit() || b == b':' || b == b'\r' || b == b'\n');
+        let mut v: Vec<String> = LOOKALIKES_FIXED.iter().map(|s| s.to_string()).collect();
+        for cp in 0x80u32..=0x10FFFF {
+            let Some(c) = char::from_u32(cp) else { continue };
+            let up: String = c.to_uppercase().collect();
+            let lo: String = c.to_lowercase().collect();
+            if in_alphabet(&up) || in_alphabet(&lo) || c.is_whitespace() {
+                let s = c.to_string();
+                if !v.contains(&s) {
+                    v.push(s);
+                }
+            }
+        }
+        v
+    })
+}
 
 const TERMINATORS: &[&[u8]] = &[
     b"",
@@ -235,7 +259,7 @@ fn grammar_strategy() -> impl Strategy<Value = BytesCase> {
                     }
                     2 => out.insert(pos, byte),
                     k => {
-                        let seq = LOOKALIKES[byte as usize % LOOKALIKES.len()].as_bytes();
+                        let seq = lookalikes()[byte as usize % lookalikes().len()].as_bytes();
                         if k == 3 {
                             out.remove(pos);
                         }
@@ -326,8 +350,8 @@ pub fn run(ctx: &Ctx) {
     ctx.part_done("exhaustive-one-byte-frames", true, json!("':' + 12 digits over {0,1,F} (3^12)"));
 
     // (i-d) every look-alike sequence substituted at / inserted before every position of three valid frames
-    par_range(ctx, "lookalike-characters", LOOKALIKES.len() as u64, |k, st| {
-        let seq = LOOKALIKES[k as usize].as_bytes();
+    par_range(ctx, "lookalike-characters", lookalikes().len() as u64, |k, st| {
+        let seq = lookalikes()[k as usize].as_bytes();
         for frame in [&b":01007F02FF7F"[..], &b":02000201031FD9\r\n"[..], &b":0000000000"[..]] {
             for pos in 0..=frame.len() {
                 for replace in [false, true] {
@@ -344,12 +368,53 @@ pub fn run(ctx: &Ctx) {
                     s2.extend_from_slice(seq);
                     s2.extend_from_slice(&frame[(pos + if replace { 2 } else { 0 }).min(frame.len())..]);
                     check_bytes(&s2, st, false).map_err(|m| (json!({"bytes": s2}), m))?;
+                    // one sequence in place of a whole pair of digits (a character that expands to two)
+                    if replace && pos + 2 <= frame.len() {
+                        let mut s3: Vec<u8> = frame[..pos].to_vec();
+                        s3.extend_from_slice(seq);
+                        s3.extend_from_slice(&frame[pos + 2..]);
+                        check_bytes(&s3, st, false).map_err(|m| (json!({"bytes": s3}), m))?;
+                    }
                 }
             }
         }
         Ok(())
     });
-    ctx.part_done("lookalike-characters", true, json!({"sequences": LOOKALIKES.len(), "what": "each multi-byte look-alike (Unicode digits, fullwidth hex letters/colon, Unicode spaces) replacing / inserted at every position of 3 valid frames, singly and doubled"}));
+    ctx.part_done("lookalike-characters", true, json!({"sequences": lookalikes().len(), "what": "each multi-byte look-alike (Unicode digits, fullwidth hex letters/colon, every Unicode white-space character, every character whose case mapping falls into the frame alphabet) replacing one character / a pair / inserted at every position of 3 valid frames, singly and doubled"}));
+
+    // (i-d') every single byte value substituted at / inserted before every position of valid frames (a sign, a space, a
+    // control character in place of a digit: whatever a lenient number parser might swallow)
+    let bases: Vec<Vec<u8>> = vec![
+        b":01007F02FF7F".to_vec(),
+        b":02000201031FD9\r\n".to_vec(),
+        b":0000000000".to_vec(),
+        b":0400100000a0B0c0dC\r\n".to_vec(),
+        crate::oracle::hex::ref_encode(0x0A0B, 0x00, &(0..16).collect::<Vec<u8>>()),
+    ];
+    par_range(ctx, "every-byte-substituted", 256, |b, st| {
+        let b = b as u8;
+        for frame in &bases {
+            for pos in 0..=frame.len() {
+                if pos < frame.len() {
+                    let mut s = frame.clone();
+                    s[pos] = b;
+                    check_bytes(&s, st, false).map_err(|m| (json!({"bytes": s}), m))?;
+                }
+                let mut s = frame.clone();
+                s.insert(pos, b);
+                check_bytes(&s, st, false).map_err(|m| (json!({"bytes": s}), m))?;
+                // two in a row in place of a pair
+                if pos + 2 <= frame.len() {
+                    let mut s = frame.clone();
+                    s[pos] = b;
+                    s[pos + 1] = b;
+                    check_bytes(&s, st, false).map_err(|m| (json!({"bytes": s}), m))?;
+                }
+            }
+        }
+        Ok(())
+    });
+    ctx.part_done("every-byte-substituted", true, json!("all 256 byte values substituted at (singly and as a pair) / inserted before every position of 5 valid frames"));
 
     // (i-e) the heaviest frames: 250..=255 data bytes of 0xFF / 0xFE with high address and type bytes (field sums near
     // and beyond 65536), valid, with the checksum off by one, and with the length field off by one
@@ -381,6 +446,110 @@ pub fn run(ctx: &Ctx) {
         Ok(())
     });
     ctx.part_done("heaviest-frames", true, json!("250..=255 data bytes of FF/FE/80 x 5 address/type pairs x {valid, checksum +1, checksum -1, length +1} x {plain, CRLF}"));
+
+    // (i-f) mass probe: very many distinct well-shaped strings with a wrong checksum, decoded while a fixed set of 64
+    // valid frames is re-decoded every 4096 probes. Each probe must be rejected as a checksum error. This is the only
+    // way generated inputs can meet a decoder that remembers earlier inputs under a lossy key (a memo keyed by a
+    // 32-bit hash needs ~2^32/64 probes for one collision); inputs are a counter-mode function of (seed, job, k).
+    let warm: Vec<Vec<u8>> = (0..64u64)
+        .map(|k| {
+            let h = h64(&("c03-warm", ctx.seed, k));
+            let n = (h % 7) as usize;
+            let data: Vec<u8> = (0..n).map(|i| (h >> (8 * (i + 1))) as u8).collect();
+            crate::oracle::hex::ref_encode((h >> 40) as u16, (h >> 56) as u8, &data)
+        })
+        .collect();
+    const PROBES_PER_JOB: u64 = 16_384;
+    const UNSHAPED_PER_JOB: u64 = 262_144;
+    let jobs = ctx.tier.pick(800u64, 8_000u64);
+    par_range(ctx, "mass-bad-checksum", jobs, |job, st| {
+        let mut buf: Vec<u8> = Vec::with_capacity(32);
+        for w in &warm {
+            check_bytes(w, st, false).map_err(|m| (json!({"bytes": w}), m))?;
+        }
+        let mut x = h64(&("c03-mass", ctx.seed, job));
+        for k in 0..PROBES_PER_JOB {
+            if k % 4096 == 0 {
+                for w in &warm {
+                    let _ = Frame::from_bytes(w);
+                }
+            }
+            // splitmix64 step
+            x = x.wrapping_add(0x9E37_79B9_7F4A_7C15);
+            let mut z = x;
+            z = (z ^ (z >> 30)).wrapping_mul(0xBF58_476D_1CE4_E5B9);
+            z = (z ^ (z >> 27)).wrapping_mul(0x94D0_49BB_1331_11EB);
+            z ^= z >> 31;
+            let n = (z & 7).min(5) as usize; // 0..=5 data bytes
+            let mut fields = [0u8; 10];
+            fields[0] = n as u8;
+            fields[1] = (z >> 8) as u8;
+            fields[2] = (z >> 16) as u8;
+            fields[3] = (z >> 24) as u8;
+            for i in 0..n {
+                fields[4 + i] = (z.wrapping_mul(0xD6E8_FEB8_6659_FD93) >> (8 * i)) as u8 ^ (k as u8);
+            }
+            let sum = fields[..4 + n].iter().fold(0u8, |a, &b| a.wrapping_add(b));
+            let right = 0u8.wrapping_sub(sum);
+            let wrong = right.wrapping_add(1 + ((z >> 3) as u8 % 255));
+            fields[4 + n] = wrong;
+            buf.clear();
+            buf.push(b':');
+            for b in &fields[..5 + n] {
+                buf.push(b"0123456789ABCDEF"[(b >> 4) as usize]);
+                buf.push(b"0123456789ABCDEF"[(b & 15) as usize]);
+            }
+            let ok = match catch(|| Frame::from_bytes(&buf)) {
+                Ok(Err(FrameError::BadChecksum { expected, actual, .. })) => expected == wrong && actual == right,
+                _ => false,
+            };
+            if !ok {
+                // the full oracle words the disagreement (and confirms it against the reference parser)
+                let mut tmp = Stats::new();
+                if let Err(m) = check_bytes(&buf, &mut tmp, false) {
+                    return Err((json!({"bytes": buf, "decoded_before": warm}), m));
+                }
+            }
+        }
+        // the cheap half: strings that do not even start with a colon (rejected at the first character, so they cost a
+        // fraction of a shaped probe and ten times as many fit into the same time)
+        for k in 0..UNSHAPED_PER_JOB {
+            if k % 65_536 == 0 {
+                for w in &warm {
+                    let _ = Frame::from_bytes(w);
+                }
+            }
+            x = x.wrapping_add(0x9E37_79B9_7F4A_7C15);
+            let mut z = x;
+            z = (z ^ (z >> 30)).wrapping_mul(0xBF58_476D_1CE4_E5B9);
+            z = (z ^ (z >> 27)).wrapping_mul(0x94D0_49BB_1331_11EB);
+            z ^= z >> 31;
+            let mut raw = [0u8; 12];
+            raw[..8].copy_from_slice(&z.to_le_bytes());
+            raw[8..].copy_from_slice(&(x as u32).to_le_bytes());
+            if raw[0] == b':' {
+                raw[0] = b';';
+            }
+            let n = 7 + (z >> 61) as usize % 6; // 7..=12 bytes
+            let ok = matches!(catch(|| Frame::from_bytes(&raw[..n])), Ok(Err(FrameError::InvalidFrame { .. })));
+            if !ok {
+                let mut tmp = Stats::new();
+                if let Err(m) = check_bytes(&raw[..n], &mut tmp, false) {
+                    return Err((json!({"bytes": raw[..n].to_vec(), "decoded_before": warm}), m));
+                }
+            }
+        }
+        st.evals(PROBES_PER_JOB + UNSHAPED_PER_JOB);
+        st.nontrivial_enumerated(PROBES_PER_JOB);
+        st.class_n("mass:bad-checksum", PROBES_PER_JOB);
+        st.class_n("mass:no-colon", UNSHAPED_PER_JOB);
+        Ok(())
+    });
+    ctx.part_done(
+        "mass-bad-checksum",
+        false,
+        json!({"shaped_probes": jobs * PROBES_PER_JOB, "unshaped_probes": jobs * UNSHAPED_PER_JOB, "what": "distinct well-shaped strings (0..=5 data bytes) with a wrong checksum, each expected to be rejected as BadChecksum with the right numbers, and 16 times as many distinct 7..12-byte strings without a leading colon, each expected to be rejected as InvalidFrame; interleaved with 64 valid frames that are re-decoded every few thousand probes"}),
+    );
 
     // (ii) grammar based ------------------------------------------------------------------
     run_generated(ctx, "grammar", ctx.tier.pick(1_000_000, 20_000_000), grammar_strategy, |c, st| {
@@ -415,5 +584,13 @@ pub fn run(ctx: &Ctx) {
 pub fn replay(_part: &str, case: &Value) -> Result<(), String> {
     let c: BytesCase = serde_json::from_value(case.clone()).map_err(|e| format!("bad case: {e}"))?;
     let mut st = Stats::new();
+    // strings this process decoded before the failing one (mass probe)
+    if let Some(before) = case.get("decoded_before").and_then(|v| v.as_array()) {
+        for b in before {
+            if let Ok(bytes) = serde_json::from_value::<Vec<u8>>(b.clone()) {
+                let _ = catch(|| Frame::from_bytes(&bytes));
+            }
+        }
+    }
     check_bytes(&c.bytes, &mut st, false)
 }
